@@ -45,7 +45,22 @@ try:
         res = {}
         for tc in ET.parse(jx).iter("testcase"):
             res[tc.get("classname") + "::" + tc.get("name")] = not any(ch.tag in ("failure", "error", "skipped") for ch in tc)
-        out["baseline_tests_broken"] = sorted(s for s in base if not res.get(s, False))
+        broken = sorted(s for s in base if not res.get(s, False))
+        # a test that compares wall-clock times (test_violin_large) fails now and then on a
+        # loaded machine: anything broken is re-run on its own before it counts
+        retried = []
+        for s in list(broken):
+            cls, nm = s.rsplit("::", 1)
+            node = cls.replace(".", "/") + ".py::" + nm
+            for _ in range(2):
+                r2 = subprocess.run(["/venv/bin/python", "-m", "pytest", "-q", "-p", "no:cacheprovider",
+                                     "--timeout=900", node], env=env, cwd=str(D), capture_output=True, text=True, timeout=1800)
+                if r2.returncode == 0:
+                    broken.remove(s)
+                    retried.append(s)
+                    break
+        out["baseline_tests_broken"] = broken
+        out["passed_when_rerun_alone"] = retried
     checks = {}
     for pid in ids:
         e = dict(os.environ, VERIF_REPO=str(D), VERIF_NO_EVIDENCE="1")
